@@ -34,7 +34,9 @@ ASSUMPTIONS = [
     "CBC binary is deterministic for a given MPS file (verified by the repeat clause itself)",
     "reference 'alone' = forked child of a parent that imported the model and ran nothing; validated on a sample "
     "against true fresh interpreters with other PYTHONHASHSEED/TZ/locale/cwd",
-    "jobs that received a fault are not comparison subjects (only the clean jobs around them)",
+    "a job hit by a line-level abort or a torn table read is not a comparison subject (only the clean jobs around it); "
+    "a job that returns a result although it met any other fault (solver failure, I/O error, slow solver, clock jump) "
+    "must return the result of the same job run alone",
 ]
 COMPONENTS = {
     "real": ["option dispatch", "Parameters", "Optimizer", "PuLP", "CBC binary", "Extractor/Interpreter/Validator",
@@ -312,8 +314,15 @@ def execute(spec):
                              "countries": c.get("countries")},
                             "call completes when its jobs run alone but fails after other jobs").to_json())
                     continue
+                survived = None
                 if faulty:
-                    continue  # survived its fault: its own business (see DESIGN 5/C14)
+                    if any(f["seam"] == "abort" or f.get("kind") == "truncated" for f in fl):
+                        # a line-level abort swallowed by the code's own broad handlers, or a torn read nobody can
+                        # notice: the job's own business (see DESIGN 5/C14)
+                        continue
+                    # any other fault is fail-stop or harmless (slow solver, clock jump): a call that RETURNS a result
+                    # must return the result of the same call run alone
+                    survived = "+".join(sorted("%s:%s" % (f["seam"], str(f.get("kind", "")).split(":")[0]) for f in fl))
                 if c.get("kind") == "yaml":
                     sim_months += 3 * c["config"]["settings"]["NMONTHS"] * len(unit_jobs(c))
                     for u, interp in zip(unit_jobs(c), t.unit_results):
@@ -332,7 +341,8 @@ def execute(spec):
                                 {"call_index": i, "status_alone": ref["status"]}, "job fails alone but completes inside the YAML driver loop").to_json())
                         elif dg != ref["digest"]:
                             violations.append(core.Violation(
-                                ID, "same_as_alone", {"kind": "digest_differs", "iso3": u["iso3"], "via": "yaml"},
+                                ID, "same_as_alone", dict({"kind": "digest_differs", "iso3": u["iso3"], "via": "yaml"},
+                                                          **({"survived_own_fault": survived} if survived else {})),
                                 {"call_index": i, "digest_in_history": dg, "digest_alone": ref["digest"], "title": u["title"],
                                  "percent_fed_in_history": float(interp.percent_people_fed)},
                                 "result inside the YAML driver loop differs from the same run executed alone").to_json())
@@ -365,7 +375,8 @@ def execute(spec):
                             "job fails alone but completes after other jobs").to_json())
                     elif dg != ref["digest"]:
                         violations.append(core.Violation(
-                            ID, "same_as_alone", {"kind": "digest_differs", "iso3": u["iso3"]},
+                            ID, "same_as_alone", dict({"kind": "digest_differs", "iso3": u["iso3"]},
+                                                      **({"survived_own_fault": survived} if survived else {})),
                             {"call_index": i, "digest_in_history": dg, "digest_alone": ref["digest"],
                              "percent_fed_in_history": float(interp.percent_people_fed),
                              "preceding_calls": [[x["iso3"], x.get("countries")] for x in calls[:i]]},
